@@ -186,9 +186,20 @@ type DayDump struct {
 	Stats  gpfile.Stats `json:"stats"`
 	Blocks []struct {
 		Ts      int64                  `json:"ts"`
+		Cols    [][]byte               `json:"cols"`
 		Traffic gpfile.TrafficMetadata `json:"traffic"`
 	} `json:"blocks"`
 	Err string `json:"err,omitempty"`
+}
+
+// Content is a canonical rendering of the logical content of a day (block timestamps, column bytes,
+// per-block and per-day summaries).
+func (d DayDump) Content() string {
+	s := fmt.Sprintf("stats=%+v", d.Stats)
+	for _, b := range d.Blocks {
+		s += fmt.Sprintf("|ts=%d traffic=%+v cols=%x", b.Ts, b.Traffic, b.Cols)
+	}
+	return s
 }
 
 type dumpResp struct {
